@@ -165,19 +165,27 @@ package dispatcher
 // One write of a totals / count entry: exactly the key built from the two identifiers (and denomination).
 //@ func (d *Dispatcher) SetDispatchedAmount(ctx, sourceID, destID, denom, amountDispatched) (err)
 //@   requires[inv] d != nil
-//@   requires[C17] sourceID != nil && destID != nil && destID.ProtocolId >= 0
+//@   requires[C17,C17p] sourceID != nil && destID != nil && destID.ProtocolId >= 0
 //@   modifies amt_has, amt_val
 //@   letold k = quad4(sourceID.ProtocolId, sourceID.CounterpartyId, idstr(destID.ProtocolId, destID.CounterpartyId), denom)
 //@   ensures[C17] err == nil && amt_has == store(old(amt_has), d.dispatchedAmounts, store(old(amt_has)[d.dispatchedAmounts], k, true)) &&
 //@                amt_val == store(old(amt_val), d.dispatchedAmounts, store(old(amt_val)[d.dispatchedAmounts], k, amountDispatched))
+//   the store invariant behind the export is preserved when the identifiers are valid (as they are at both call sites:
+//   validated genesis entries, and transfer attributes / forwarding identifiers validated on the receive path)
+//@   ensures[C17p] vcc(deref(sourceID)) && sourceID.ProtocolId >= 0 && vcc(deref(destID)) && 1 <= destID.ProtocolId && destID.ProtocolId <= 9 &&
+//@                (forall q T_cosmossdk_io_collections_Quad_int32_string_string_string_ trigger(old(amt_has)[d.dispatchedAmounts][q]) :: old(amt_has)[d.dispatchedAmounts][q] ==> amtKeyOK(q)) ==>
+//@                (forall q T_cosmossdk_io_collections_Quad_int32_string_string_string_ trigger(amt_has[d.dispatchedAmounts][q]) :: amt_has[d.dispatchedAmounts][q] ==> amtKeyOK(q))
 
 //@ func (d *Dispatcher) SetDispatchedCounts(ctx, sourceID, destID, counts) (err)
 //@   requires[inv] d != nil
-//@   requires[C17] sourceID != nil && destID != nil
+//@   requires[C17,C17p] sourceID != nil && destID != nil
 //@   modifies cnt_has, cnt_val
 //@   letold k = quad4(sourceID.ProtocolId, sourceID.CounterpartyId, destID.ProtocolId, destID.CounterpartyId)
 //@   ensures[C17] err == nil && cnt_has == store(old(cnt_has), d.dispatchedCounts, store(old(cnt_has)[d.dispatchedCounts], k, true)) &&
 //@                cnt_val == store(old(cnt_val), d.dispatchedCounts, store(old(cnt_val)[d.dispatchedCounts], k, counts))
+//@   ensures[C17p] vcc(deref(sourceID)) && vcc(deref(destID)) &&
+//@                (forall q T_cosmossdk_io_collections_Quad_int32_string_int32_string_ trigger(old(cnt_has)[d.dispatchedCounts][q]) :: old(cnt_has)[d.dispatchedCounts][q] ==> cntKeyOK(q)) ==>
+//@                (forall q T_cosmossdk_io_collections_Quad_int32_string_int32_string_ trigger(cnt_has[d.dispatchedCounts][q]) :: cnt_has[d.dispatchedCounts][q] ==> cntKeyOK(q))
 
 //@ func (d *Dispatcher) InitGenesis(ctx, g) (err)
 //@   requires[inv] d != nil
@@ -257,6 +265,9 @@ package dispatcher
 // (idP/idC name the pair it is the text of).
 //@ smt (declare-fun idP (String) Int)
 //@ smt (declare-fun idC (String) String)
+//   idP/idC are the inverse of idstr on single-digit protocol numbers; consistent because idstr is injective
+//   there (lemma idInjective, proved under C20)
+//@ axiom[C17p] forall p int, c string trigger(idstr(p, c)) :: 1 <= p && p <= 9 ==> idP(idstr(p, c)) == p && idC(idstr(p, c)) == c
 //@ macro amap(d) = amt_has[d.dispatchedAmounts]
 //@ macro amtKeyOK(q) = vcc(mk("core.CrossChainID", q.k1, q.k2)) && q.k1 >= 0 && vcc(mk("core.CrossChainID", idP(q.k3), idC(q.k3))) && 1 <= idP(q.k3) && idP(q.k3) <= 9 && q.k3 == idstr(idP(q.k3), idC(q.k3))
 //@ macro amtKeysOK(d) = forall q T_cosmossdk_io_collections_Quad_int32_string_string_string_ trigger(amap(d)[q]) :: amap(d)[q] ==> amtKeyOK(q)
